@@ -71,6 +71,9 @@ def run_variant(var: dict) -> tuple[dict, bool, str]:
             rule = f"REPORT {var['prop']}-{var['rule']} "
             ok = cp.returncode == 1 and rule in out
             why = "" if ok else f"expected exit 1 with {rule.strip()}, got exit {cp.returncode}"
+        elif var["expect"] == "U":
+            ok = cp.returncode == 2 and "ANALYSIS-ERROR" in out and "VIOLATION" not in out
+            why = "" if ok else f"expected exit 2 (undecided), got exit {cp.returncode}"
         else:
             ok = cp.returncode == 0 and "VIOLATION" not in out
             why = "" if ok else f"expected silent exit 0, got exit {cp.returncode}"
@@ -91,9 +94,14 @@ def main() -> int:
     for meta_path in sorted((HERE / "seeded").glob("*/meta.json")):
         meta = json.loads(meta_path.read_text())
         for cb in meta.get("caught_by", []):
-            for m in re.finditer(r"\b(C\d\d)-((?:C\d\d\.)?R\w+)", cb.split(" - ")[0]):
+            for m in re.finditer(r"\b(C\d\d)-((?:C\d\d\.)?(?:R\w+|H\b))", cb.split(" - ")[0]):
                 VARIANTS.append({"prop": m.group(1), "id": f"{m.group(1)}:seed-{meta_path.parent.name}", "expect": "F",
                                  "rule": m.group(2), "edits": [], "patchfile": str(meta_path.parent / "patch.diff")})
+
+        if not meta.get("caught_by") and meta.get("not_decided"):
+            # an honest 'cannot decide': the check must stop with exit 2, neither pass nor invent a violation
+            VARIANTS.append({"prop": meta["property"], "id": f"{meta['property']}:seed-{meta_path.parent.name}", "expect": "U", "rule": "",
+                             "edits": [], "patchfile": str(meta_path.parent / "patch.diff")})
 
     ap = argparse.ArgumentParser()
     ap.add_argument("props", nargs="*")
